@@ -24,15 +24,28 @@ import (
 	"golang.org/x/time/rate"
 )
 
+type probeCall struct {
+	at     time.Time
+	ver    int
+	failed bool
+}
+
 type probeOps struct {
-	mu      sync.Mutex
-	updates map[uint64][]int // key -> payload versions handed to Update
+	mu       sync.Mutex
+	updates  map[uint64][]int       // key -> payload versions handed to Update
+	calls    map[uint64][]probeCall // key -> every Update call with its virtual time and outcome
+	failFrom int                    // Update of a payload version >= failFrom fails (0: nothing fails)
 }
 
 func (p *probeOps) Update(_ context.Context, _ statedb.ReadTxn, _ statedb.Revision, o *obj) error {
 	p.mu.Lock()
+	defer p.mu.Unlock()
 	p.updates[o.K] = append(p.updates[o.K], o.Ver)
-	p.mu.Unlock()
+	failed := p.failFrom > 0 && o.Ver >= p.failFrom
+	p.calls[o.K] = append(p.calls[o.K], probeCall{time.Now(), o.Ver, failed})
+	if failed {
+		return fmt.Errorf("probe: scripted failure")
+	}
 	return nil
 }
 func (p *probeOps) Delete(context.Context, statedb.ReadTxn, statedb.Revision, *obj) error { return nil }
@@ -46,7 +59,16 @@ func runProbe(kind string, batch bool) (bad []string) {
 		db    *statedb.DB
 		table statedb.RWTable[*obj]
 	)
-	po := &probeOps{updates: map[uint64][]int{}}
+	po := &probeOps{updates: map[uint64][]int{}, calls: map[uint64][]probeCall{}}
+	// refreshbackoff: hour-scale backoff, a refresh interval of a minute and a refresh rate limiter that makes
+	// the refresher wait ten seconds between two objects of one sweep (the window in which it holds a stale view)
+	retryMin, retryMax := 10*time.Millisecond, 40*time.Millisecond
+	refreshEvery, refreshLimiter := 40*time.Millisecond, (*rate.Limiter)(nil)
+	if kind == "refreshbackoff" {
+		retryMin, retryMax = time.Hour, 24*time.Hour
+		refreshEvery, refreshLimiter = time.Minute, rate.NewLimiter(rate.Every(10*time.Second), 1)
+		po.failFrom = 2
+	}
 	log := slog.New(slog.NewTextHandler(io.Discard, &slog.HandlerOptions{Level: slog.LevelError + 8}))
 	h := hive.New(
 		statedb.Cell, job.Cell,
@@ -59,9 +81,9 @@ func runProbe(kind string, batch bool) (bad []string) {
 		}),
 		cell.Module("probe", "probe", cell.Invoke(func(p reconciler.Params) error {
 			_, err := reconciler.Register(p, table, (*obj).Clone, (*obj).SetStatus, (*obj).GetStatus, po, nil,
-				reconciler.WithRetry(10*time.Millisecond, 40*time.Millisecond),
+				reconciler.WithRetry(retryMin, retryMax),
 				reconciler.WithRoundLimits(100, rate.NewLimiter(rate.Inf, 1)),
-				reconciler.WithRefreshing(40*time.Millisecond, nil),
+				reconciler.WithRefreshing(refreshEvery, refreshLimiter),
 				reconciler.WithoutPruning())
 			return err
 		})),
@@ -156,6 +178,67 @@ func runProbe(kind string, batch bool) (bad []string) {
 		po.mu.Unlock()
 		if len(last) == 0 || last[len(last)-1] != 31 {
 			bad = append(bad, "latest-version-not-the-last-update")
+		}
+	case "refreshbackoff":
+		// C16 "the backoff starts over [only] after the object changes or succeeds": the refresher looks at a
+		// snapshot, then waits for its rate limiter between two objects; meanwhile the user updates the objects it
+		// has not reached yet and the update FAILS (status Error, retry queued an hour ahead). When the refresher
+		// gets to them it must leave them alone (reconciler.go refreshLoop: `ok && rev == newRev`; theorem
+		// C16_refresher_never_restarts_a_backoff): nobody but the library touches them after the failure, so the
+		// next attempt may come no sooner than the minimum backoff after the failed one - and must come.
+		w := db.WriteTxn(table)
+		for k := uint64(1); k <= 3; k++ {
+			table.Insert(w, &obj{K: k, Ver: 1, Status: reconciler.StatusPending()})
+		}
+		w.Commit()
+		time.Sleep(65 * time.Second) // the sweep started at 60 s, took the first object and waits for the limiter
+		synctest.Wait()
+		po.mu.Lock()
+		refreshed := map[uint64]bool{}
+		for k, c := range po.calls {
+			refreshed[k] = len(c) >= 2
+		}
+		po.mu.Unlock()
+		nref := 0
+		for _, r := range refreshed {
+			if r {
+				nref++
+			}
+		}
+		if nref != 1 {
+			bad = append(bad, fmt.Sprintf("refresher-swept-%d-objects-in-5s-at-1-per-10s", nref))
+		}
+		w = db.WriteTxn(table)
+		for k := uint64(1); k <= 3; k++ {
+			if !refreshed[k] {
+				table.Insert(w, &obj{K: k, Ver: 2, Status: reconciler.StatusPending()})
+			}
+		}
+		w.Commit()
+		time.Sleep(4 * time.Hour)
+		synctest.Wait()
+		po.mu.Lock()
+		for k := uint64(1); k <= 3; k++ {
+			c := po.calls[k]
+			retried := false
+			for i := 1; i < len(c); i++ {
+				if c[i-1].failed && c[i].ver == c[i-1].ver {
+					retried = true
+					if d := c[i].at.Sub(c[i-1].at); d < retryMin {
+						bad = append(bad, fmt.Sprintf("re-attempt-%ds-after-failure-min-backoff-%ds(k%d)", int(d.Seconds()), int(retryMin.Seconds()), k))
+						break
+					}
+				}
+			}
+			if !refreshed[k] && !retried {
+				bad = append(bad, fmt.Sprintf("failed-update-never-retried(k%d)", k))
+			}
+		}
+		po.mu.Unlock()
+		for k := uint64(1); k <= 3; k++ {
+			if o, ok := get(k); !ok || (!refreshed[k] && (o.Ver != 2 || o.Status.Kind != reconciler.StatusKindError)) {
+				bad = append(bad, fmt.Sprintf("failing-object-not-in-error(k%d)", k))
+			}
 		}
 	default:
 		bad = append(bad, "unknown-probe")
